@@ -2,7 +2,7 @@
 Navier-Stokes residual) on polynomial networks at dyadic points, exact comparison with the
 Coq model; closed-form check on a trigonometric + Gaussian family as a direct oracle."""
 import itertools, math, random
-from common import jx, cq, cnat, cbool, clist, write_cases, default_matches_known
+from common import relax, jx, cq, cnat, cbool, clist, write_cases, default_matches_known
 from poly import mk, prand, pdiff, peval
 matches_known = default_matches_known
 OPS = ["laplacian", "divergence", "vector_laplacian", "advection"]
@@ -105,6 +105,7 @@ def smooth_family_oracle(rng, n):
         def __call__(self, z):
             return jnp.stack([self.a * jnp.sin(self.w @ z) + z @ self.q @ z + jnp.exp(-jnp.sum((z - self.c) ** 2))])
     for _ in range(n):
+        relax(10)
         d = rng.randint(1, 4); has_t = rng.random() < 0.5; nv = d + has_t
         r = np.random.default_rng(rng.randrange(1 << 30))
         a, w, q, c = r.normal(), r.normal(size=nv), r.normal(size=(nv, nv)), r.normal(size=nv)
@@ -144,6 +145,7 @@ def generate(tier, seed, casedir, variant):
     cases, meta, viol, samples, dist = [], {}, [], [], {}
     nontrivial = set()
     for cid, c in enumerate(gen_cfgs(tier, rng)):
+        relax()
         try:
             obs = call_op(c["op"], c["has_t"], c["d"], c["polys"], c["pt"], c["nus"])
         except Exception as ex:
@@ -166,6 +168,7 @@ def generate(tier, seed, casedir, variant):
     import c11
     fcases = []
     for k in range(12 if tier == "quick" else 90):
+        relax(10)
         try:
             term, m = c11.op_case(rng, k)
         except Exception as ex:
